@@ -214,6 +214,15 @@ def work_strings(slot):
         if i % nslots == idx:
             cases.append({'enc': {'s': s}})
             cases.append({'enc': ['L', {'s': 'x'}, {'s': s}, None]})
+    if idx == 1 % nslots:
+        # the SAME list / dict / TextBlock object at several positions of one content value
+        subs = [['L', {'s': ''}], ['L', {'s': 'x'}], ['D', {'s': 'y'}], ['L'], ['T', {'s': 't'}], ['L', {'s': 'a\nb'}, None],
+                ['H', {'s': 'q'}], ['L', ['L', {'s': 'z'}]]]
+        for sub in subs:
+            same = ['=', 1, sub]
+            for enc in (['L', {'s': 'a'}, same, {'s': 'b'}, same, {'s': 'c'}], ['D', same, same], ['L', same, ['L', same]],
+                        ['L', same, same, same, same], ['T', same, ['D', {'s': 'm'}, same]], ['L', ['T', same], same]):
+                cases.append({'enc': enc})
     if idx == 0:
         # scalars that a truthiness test would mistake for "empty"
         for leaf in ({'n': 0}, {'n': 0.0}, {'b': False}, {'b': True}, {'n': -1}, {'n': 10 ** 20}):
